@@ -214,6 +214,21 @@ Definition print_reread (ord : bool) (cp : comm -> Z) (xs : pstate) (l : list xp
   do ls <- decide cp xs l;
   finalize ord cp None (map fst (reread cp xs ls)).
 
+(* ------------------------------------------------------------------ journals with assigned amounts *)
+(* Xact.run_journal lets the pool learn from every posting amount it is given.  With `= AMOUNT` clauses two
+   things differ (textual.cc:1655-1665, 1741-1753): the assigned amount itself is parsed without
+   PARSE_NO_MIGRATE and teaches the commodity its decimals, while the amount ledger COMPUTES for a balance
+   assignment is not parsed at all and teaches nothing (it may carry more decimals than the commodity
+   displays).  So each transaction comes with its learning view: the amounts that were parsed *)
+Fixpoint run_journal_l (ord : bool) (bucket : option str) (pl : pool) (xs : list (list post * list post))
+  : list (res outcome) :=
+  match xs with
+  | [] => []
+  | (lx, x) :: xs' =>
+      let pl' := learn_posts pl lx in
+      finalize ord (cp_of pl') bucket x :: run_journal_l ord bucket pl' xs'
+  end.
+
 (* ------------------------------------------------------------------ equity *)
 
 (* the opening-balances postings for ONE account: posts_as_equity keeps, per account, the sum of
